@@ -126,6 +126,16 @@ theorem C03_cex_source_minus_one :
     (runCalls utf8 (fun _ _ => -1) 0xFFFD 4096 (initStream utf8 4096 [0x61, 0xFF, 0x62] true) [5, 5]).map
       (fun r => (r.ret, r.err, r.reports)) = [(-1, -1, [102])] := by decide
 
+/-- `utf8_incremental` (Lemmas/UstreamConv.lean) under the property's name: the model's UTF-8 converter (tied to ICU's by
+    family `ustream`) meets the contract of an incremental converter -/
+theorem C08_utf8_incremental : Laws utf8 := utf8_incremental
+
+theorem C08_utf16_incremental (be : Bool) : Laws (utf16 be) := utf16_incremental be
+
+/-- C11: the converters `cif_parse` opens for a BOM-signalled UTF-16 file meet the contract, so everything proved about the
+    stream (`C08_ustream_any_requests`, `C08_bytes_to_scanner`, `C03_ustream_total`) holds for them -/
+theorem C11_utf16_incremental (be : Bool) : Laws (utf16 be) := utf16_incremental be
+
 /-- the non-empty deliveries of a run, as a chunked character source for `get_first_char` / `get_more_chars` -/
 def deliveries {c : Conv} (rs : List (CallR c)) : List Str := (rs.map (·.units)).filter (· ≠ [])
 
